@@ -24,17 +24,26 @@ CONSTANTS Addr,        \* wallets (keys); a request signed `by` k carries a vali
           HasData,     \* Trx -> BOOLEAN: the transaction as issued is a contract
           HasSpice,    \* Trx -> BOOLEAN: the transaction transfers spice
           Oversize,    \* Trx -> BOOLEAN: the data is longer than the node accepts for a contract (data_size_bytes)
-          MaxChal      \* challenge identities are 1..MaxChal
+          MaxChal,     \* challenge identities are 1..MaxChal
+          KeepRule     \* "kept": a transaction that Confirm / Reject took out of the cache goes back when the ledger
+                       \* fails to seal it for a reason that may pass (repaired code); "lost": it is gone (pinned, F19)
 
 NoChal == [id |-> 0, fresh |-> FALSE]
 
 \* state record: awaiting, sealed : SUBSET Trx; how : Trx -> how it was sealed; chal : Addr -> challenge;
-\* throttled : SUBSET Addr; nchal : challenges issued so far
+\* throttled : SUBSET Addr; nchal : challenges issued so far; bad : a transfer that sits in the ledger as a tentative
+\* tip which does not validate ("none": no such tip).  Propose checks the issuer's signature only, so a transfer that
+\* carries junk where the receiver's signature goes is sealed; the NEXT ledger call finds the tip invalid, drops it
+\* (the transfer is not sealed any more) and fails - whatever it was called for.
+NoTrx == "none"
 InitState ==
     [awaiting |-> {}, sealed |-> {}, how |-> [t \in Trx |-> "none"], chal |-> [a \in Addr |-> NoChal],
-     throttled |-> {}, nchal |-> 0]
+     throttled |-> {}, nchal |-> 0, bad |-> NoTrx]
+DropBad(s) == [s EXCEPT !.sealed = @ \ {s.bad}, !.how = [@ EXCEPT ![s.bad] = "none"], !.bad = NoTrx]
 
-IsContract(t, form) == HasData[t] /\ form = "issued"
+\* forms in which the signed bytes are presented: "issued"; "resplit" (data bytes moved into the subject); "junkrsig" (as
+\* issued, and for a transfer 64 bytes of junk where the receiver's signature goes)
+IsContract(t, form) == HasData[t] /\ form \in {"issued", "junkrsig"}
 
 Seal(s, t, via) ==
     [s EXCEPT !.sealed = @ \cup {t}, !.how = [@ EXCEPT ![t] = via]]
@@ -49,7 +58,9 @@ ProposeOut(s, t, by, form) ==
               ELSE [res |-> "ok", s |-> [s EXCEPT !.awaiting = @ \cup {t}]]
          ELSE IF t \in s.sealed \/ ~HasSpice[t]    \* the ledger refuses a duplicate and a transaction with neither data nor spice
               THEN [res |-> "processing", s |-> s]
-              ELSE [res |-> "ok", s |-> Unthrottle(Seal(s, t, IF HasData[t] THEN "propose-resplit" ELSE "propose"), {Iss[t], Rcv[t]})]
+              ELSE IF s.bad # NoTrx THEN [res |-> "processing", s |-> DropBad(s)]      \* the invalid tip is dropped, the call fails
+              ELSE LET s2 == Unthrottle(Seal(s, t, IF HasData[t] THEN "propose-resplit" ELSE "propose"), {Iss[t], Rcv[t]}) IN
+                   [res |-> "ok", s |-> IF form = "junkrsig" /\ ~HasData[t] THEN [s2 EXCEPT !.bad = t] ELSE s2]
 
 \* Confirm: issuer and receiver signatures, removal from the cache by the receiver, then the ledger
 ConfirmOut(s, t, issBy, rcvBy) ==
@@ -57,6 +68,7 @@ ConfirmOut(s, t, issBy, rcvBy) ==
     ELSE IF t \notin s.awaiting THEN [res |-> "nodata", s |-> s]
     ELSE LET s1 == [s EXCEPT !.awaiting = @ \ {t}] IN
          IF t \in s.sealed THEN [res |-> "processing", s |-> s1]
+         ELSE IF s.bad # NoTrx THEN [res |-> "processing", s |-> DropBad(IF KeepRule = "kept" THEN s ELSE s1)]
          ELSE [res |-> "ok", s |-> Unthrottle(Seal(s1, t, "confirm"), {Iss[t], Rcv[t]})]
 
 \* Reject: a request signed by `by` claiming address a for transaction t
@@ -66,6 +78,7 @@ RejectOut(s, t, a, by) ==
     ELSE IF Rcv[t] # a THEN [res |-> "processing", s |-> s]
     ELSE LET s1 == [s EXCEPT !.awaiting = @ \ {t}] IN
          IF t \in s.sealed THEN [res |-> "processing", s |-> s1]
+         ELSE IF s.bad # NoTrx THEN [res |-> "processing", s |-> DropBad(IF KeepRule = "kept" THEN s ELSE s1)]
          ELSE [res |-> "ok", s |-> Unthrottle(Seal(s1, t, "reject"), {Iss[t]})]
 
 DataOut(s, a) ==
@@ -111,7 +124,7 @@ VARIABLES st, pend   \* pend: removed from the cache, not yet offered to the led
 
 Init == st = InitState /\ pend = {}
 
-Forms == {"issued", "resplit"}
+Forms == {"issued", "resplit", "junkrsig"}
 
 Propose(t, by, form) == st' = ProposeOut(st, t, by, form).s /\ UNCHANGED pend
 ConfirmRemove(t, issBy, rcvBy) ==
@@ -126,6 +139,8 @@ LedgerCall(p) ==
     /\ p \in pend
     /\ pend' = pend \ {p}
     /\ st' = IF p.t \in st.sealed THEN st
+             ELSE IF st.bad # NoTrx
+             THEN DropBad(IF KeepRule = "kept" THEN [st EXCEPT !.awaiting = @ \cup {p.t}] ELSE st)
              ELSE Unthrottle(Seal(st, p.t, p.via), IF p.via = "confirm" THEN {Iss[p.t], Rcv[p.t]} ELSE {Iss[p.t]})
 Refused(o) == st' = o.s /\ UNCHANGED pend
 Data(a) == st.nchal < MaxChal /\ st' = DataOut(st, a).s /\ UNCHANGED pend
@@ -155,7 +170,12 @@ C16_SignatureF11 ==
     \A t \in st.sealed : (HasData[t] /\ st.how[t] \notin {"confirm", "reject"}) => st.how[t] = "propose-resplit"
 C16_ContractNeedsReceiverModuloF11 == C16_SignatureF11
 \* sealing happens at most once and never un-happens; what was removed from the cache is either sealed or was sealed before
-C16_AtMostOnce == [][st.sealed \subseteq st'.sealed /\ \A t \in st.sealed : st'.how[t] = st.how[t]]_<<st, pend>>
+\* (a transfer that sits in an invalid tentative tip is not sealed for good: the tip is dropped by the next ledger call)
+C16_AtMostOnce == [][(st.sealed \ {st.bad}) \subseteq st'.sealed /\ \A t \in st.sealed \ {st.bad} : st'.how[t] = st.how[t]]_<<st, pend>>
+\* C15 / C16 at the notary: a Confirm or Reject that ends in an error has not cost the receiver the awaiting transaction,
+\* unless the ledger holds that transaction already (stated over the split handlers of the bounded model)
+C16_ErrorKeepsAwaiting ==
+    [][\A p \in pend \ pend' : (p.t \notin st'.sealed) => p.t \in st'.awaiting]_<<st, pend>>
 \* a pure transfer is never left awaiting
 C16_TransfersNotParked == \A t \in st.awaiting : HasData[t]
 TypeOK == st.awaiting \subseteq Trx /\ st.sealed \subseteq Trx
